@@ -90,7 +90,7 @@ func (x *Exec) step(st *State, fr *Frame, ins ssa.Instruction) bool {
 		pt := in.X.Type().Underlying().(*types.Pointer).Elem()
 		l := x.lvalOf(p)
 		nl := l.extend(lstep{field: in.Field, ct: pt})
-		fr.env[in] = Val{T: x.interiorPtr(p.T, fmt.Sprintf("f%d", in.Field)), Typ: in.Type(), LV: nl}
+		fr.env[in] = Val{T: x.interiorPtrSt(st, p.T, fmt.Sprintf("f%d", in.Field)), Typ: in.Type(), LV: nl}
 	case *ssa.Field:
 		sv := x.val(st, fr, in.X)
 		si := x.S.StructInfo(in.X.Type())
@@ -108,14 +108,14 @@ func (x *Exec) step(st *State, fr *Frame, ins ssa.Instruction) bool {
 			x.safety(st, fr, in, "index", And(App(SBool, "<=", IntLit(0), iv.T), App(SBool, "<", iv.T, App(SInt, "s.len", xv.T))))
 			idx := App(SInt, "+", App(SInt, "s.off", xv.T), iv.T)
 			l := &LVal{Kind: "elems", Root: App(SRef, "s.base", xv.T), RootT: t.Elem(), Path: []lstep{{isIdx: true, idx: idx}}}
-			fr.env[in] = Val{T: x.interiorPtr(App(SRef, "s.base", xv.T), "e"), Typ: in.Type(), LV: l}
+			fr.env[in] = Val{T: x.interiorPtrSt(st, App(SRef, "s.base", xv.T), "e"), Typ: in.Type(), LV: l}
 		case *types.Pointer: // *[N]T
 			at := t.Elem().Underlying().(*types.Array)
 			x.checkNonNil(st, fr, in, xv)
 			x.safety(st, fr, in, "index", And(App(SBool, "<=", IntLit(0), iv.T), App(SBool, "<", iv.T, IntLit(at.Len()))))
 			l := x.lvalOf(xv)
 			nl := l.extend(lstep{isIdx: true, idx: iv.T, ct: t.Elem()})
-			fr.env[in] = Val{T: x.interiorPtr(xv.T, "i"), Typ: in.Type(), LV: nl}
+			fr.env[in] = Val{T: x.interiorPtrSt(st, xv.T, "i"), Typ: in.Type(), LV: nl}
 		default:
 			x.unsupported("IndexAddr on %s", in.X.Type())
 			fr.env[in] = x.freshVal(st, "idxaddr", in.Type())
@@ -326,6 +326,13 @@ func (x *Exec) interiorPtr(base Term, tag string) Term {
 	fn := "iptr_" + tag
 	x.D.DeclareFun(fn, []string{SRef}, SRef)
 	return App(SRef, fn, base)
+}
+
+// interiorPtrSt: the address of a field / element of a non-nil object is not nil.
+func (x *Exec) interiorPtrSt(st *State, base Term, tag string) Term {
+	t := x.interiorPtr(base, tag)
+	st.assume(Implies(Not(Eq(base, TNull)), Not(Eq(t, TNull))))
+	return t
 }
 
 func (x *Exec) checkNonNil(st *State, fr *Frame, in ssa.Instruction, p Val) {
